@@ -1372,4 +1372,144 @@ theorem foldl_oadd_some (l : List α) (a : α) : (l.map some).foldl oadd (some a
 
 end Misc
 
+/-! ### the step on the module lists is the projection of the fused step -/
+section Mods
+variable {β : Type}
+
+theorem splitBy_stored (ws : List Nat) (v : List β) : splitBy ws (stored ws v) = splitBy ws v := by
+  rw [stored_eq_take]
+  induction ws generalizing v with
+  | nil => rfl
+  | cons w ws ih =>
+    simp only [splitBy, List.sum_cons, List.cons.injEq]
+    constructor
+    · rw [List.take_take]; congr 1; omega
+    · rw [List.drop_take, Nat.add_sub_cancel_left]; exact ih _
+
+theorem slice_stored (ws : List Nat) (k : Nat) (v : List β) : slice ws k (stored ws v) = slice ws k v := by
+  simp [slice, splitBy_stored]
+
+end Mods
+
+section Mods2
+variable {α : Type} [Add α] [Mul α] [Zero α] [One α] [LinearOrder α]
+
+theorem chanStates_length (chans : List (Chan α)) (s : ArtState (List α)) :
+    (chanStates chans s).length = chans.length := by simp [chanStates]
+
+theorem chanStates_getElem? (chans : List (Chan α)) (s : ArtState (List α)) (k : Nat) (hk : k < chans.length) :
+    (chanStates chans s)[k]? = some (chanState (wlens chans) k s) := by
+  simp [chanStates, List.getElem?_range hk]
+
+/-- the state after `add_weight` -/
+def addW (s : ArtState (List α)) (w : List α) : ArtState (List α) :=
+  { s with W := s.W ++ [w], cnt := s.cnt ++ [1] }
+
+/-- the state after `set_weight` -/
+def setW (s : ArtState (List α)) (c : Nat) (w : List α) : ArtState (List α) :=
+  { s with W := s.W.set c w, cnt := s.cnt.set c (s.cnt.getD c 0 + 1) }
+
+theorem modsAdd_chanStates (chans : List (Chan α)) (s : ArtState (List α)) (w : List α) :
+    modsAdd (wlens chans) (chanStates chans s) w =
+      chanStates chans (addW s (stored (wlens chans) w)) := by
+  apply List.ext_getElem?
+  intro k
+  unfold modsAdd
+  rw [List.getElem?_zipWith']
+  by_cases hk : k < chans.length
+  · have h2 : (splitBy (wlens chans) w)[k]? = some (slice (wlens chans) k w) := by
+      have : k < (splitBy (wlens chans) w).length := by simpa using hk
+      simp [slice, List.getD_eq_getElem?_getD, List.getElem?_eq_getElem this]
+    rw [chanStates_getElem? chans s k hk, chanStates_getElem? chans _ k hk, h2]
+    simp [chanState, slice_stored, addW]
+  · have h1 : (chanStates chans s)[k]? = none :=
+      List.getElem?_eq_none (by rw [chanStates_length]; omega)
+    have h3 : (chanStates chans (addW s (stored (wlens chans) w)))[k]? = none :=
+      List.getElem?_eq_none (by rw [chanStates_length]; omega)
+    simp [h1, h3]
+
+theorem modsSet_chanStates (chans : List (Chan α)) (s : ArtState (List α)) (c : Nat) (w : List α) :
+    modsSet (wlens chans) (chanStates chans s) c w =
+      chanStates chans (setW s c (stored (wlens chans) w)) := by
+  apply List.ext_getElem?
+  intro k
+  unfold modsSet
+  rw [List.getElem?_zipWith']
+  by_cases hk : k < chans.length
+  · have h2 : (splitBy (wlens chans) w)[k]? = some (slice (wlens chans) k w) := by
+      have : k < (splitBy (wlens chans) w).length := by simpa using hk
+      simp [slice, List.getD_eq_getElem?_getD, List.getElem?_eq_getElem this]
+    rw [chanStates_getElem? chans s k hk, chanStates_getElem? chans _ k hk, h2]
+    simp [chanState, slice_stored, List.map_set, setW]
+  · have h1 : (chanStates chans s)[k]? = none :=
+      List.getElem?_eq_none (by rw [chanStates_length]; omega)
+    have h3 : (chanStates chans (setW s c (stored (wlens chans) w)))[k]? = none :=
+      List.getElem?_eq_none (by rw [chanStates_length]; omega)
+    simp [h1, h3]
+
+/-- **The FusionART step on the module lists is the projection of the fused step**: same
+label, and every module ends with exactly its slice of every fused weight and the shared
+counters. -/
+theorem modsStep_chanStates {θ : Type} (chans : List (Chan α)) (hne : chans ≠ [])
+    (cfg : SearchCfg (List α) θ) (th0 : θ) (veto : Nat → Bool) (s : ArtState (List α))
+    (hs : ∀ w ∈ s.W, w.length ≤ wtotal chans) (x : List α) :
+    (modsStep chans cfg th0 veto (chanStates chans s) x).1 =
+      chanStates chans (stepFit (fusionKernel chans) cfg th0 veto s x).1 ∧
+    (modsStep chans cfg th0 veto (chanStates chans s) x).2 =
+      (stepFit (fusionKernel chans) cfg th0 veto s x).2 := by
+  unfold modsStep stepFit
+  rw [fusedW_chanStates chans hne s hs]
+  have hnew : modsAdd (wlens chans) (chanStates chans s) (rawNew chans x) =
+      chanStates chans (applyWinner (fusionKernel chans) s x none).1 := by
+    rw [modsAdd_chanStates]
+    simp [applyWinner, chanStates, chanState, fusionKernel, addW]
+  by_cases he : s.W.isEmpty
+  · simp only [he, if_true]
+    have : s.W = [] := by simpa using he
+    exact ⟨hnew, by simp [applyWinner, this]⟩
+  · simp only [he, Bool.false_eq_true, if_false]
+    cases hc : (stepSearch (fusionKernel chans) cfg th0 veto s.W x).winner with
+    | none => exact ⟨hnew, by simp [applyWinner]⟩
+    | some c =>
+      have hlt := stepSearch_winner_lt (fusionKernel chans) cfg th0 veto s.W x c hc
+      have e1 : s.W[c]? = some s.W[c] := List.getElem?_eq_getElem hlt
+      have e2 : s.W.getD c [] = s.W[c] := by simp [List.getD_eq_getElem?_getD, e1]
+      simp only [e2]
+      rw [modsSet_chanStates]
+      simp [applyWinner, e1, chanStates, chanState, fusionKernel, setW]
+
+/-- over any stream: the module lists are the projections of the fused state, the labels agree -/
+theorem modsRun_chanStates {θ : Type} (chans : List (Chan α)) (hne : chans ≠ [])
+    (cfg : SearchCfg (List α) θ) (th0 : θ) (veto : List α → Nat → Bool) (s : ArtState (List α))
+    (hs : ∀ w ∈ s.W, w.length ≤ wtotal chans) (xs : List (List α)) :
+    modsRun chans cfg th0 veto (chanStates chans s, s.labels) xs =
+      (chanStates chans (partialFit (fusionKernel chans) cfg th0 (fun _ x c => veto x c) s xs),
+       (partialFit (fusionKernel chans) cfg th0 (fun _ x c => veto x c) s xs).labels) := by
+  induction xs generalizing s with
+  | nil => rfl
+  | cons x xs ih =>
+    obtain ⟨h1, h2⟩ := modsStep_chanStates chans hne cfg th0 (veto x) s hs x
+    have hstep : trainStep (fusionKernel chans) cfg th0 (fun _ x c => veto x c) s x =
+        { (stepFit (fusionKernel chans) cfg th0 (veto x) s x).1 with
+          labels := (stepFit (fusionKernel chans) cfg th0 (veto x) s x).1.labels ++
+            [(stepFit (fusionKernel chans) cfg th0 (veto x) s x).2] } := rfl
+    have hl : (stepFit (fusionKernel chans) cfg th0 (veto x) s x).1.labels = s.labels :=
+      (stepFit_frame (fusionKernel chans) cfg th0 (veto x) s x).2.1
+    have hinv := trainStep_W_inv (fusionKernel chans) cfg th0 (fun _ x c => veto x c)
+      (fun w => w.length ≤ wtotal chans) s x (fun w _ => stored_length_le _ _) (stored_length_le _ _) hs
+    have := ih (trainStep (fusionKernel chans) cfg th0 (fun _ x c => veto x c) s x) hinv
+    simp only [modsRun, h1, h2]
+    have hcs : chanStates chans (stepFit (fusionKernel chans) cfg th0 (veto x) s x).1 =
+        chanStates chans (trainStep (fusionKernel chans) cfg th0 (fun _ x c => veto x c) s x) := by
+      rw [hstep]; rfl
+    rw [hcs, ← hl]
+    have hlab : (stepFit (fusionKernel chans) cfg th0 (veto x) s x).1.labels ++
+        [(stepFit (fusionKernel chans) cfg th0 (veto x) s x).2] =
+        (trainStep (fusionKernel chans) cfg th0 (fun _ x c => veto x c) s x).labels := by
+      rw [hstep]
+    rw [hlab, this]
+    simp [partialFit]
+
+end Mods2
+
 end Art.Fusion
